@@ -323,6 +323,9 @@ def _shard_real(shard, seed, tier):
 
     part = core.Partial()
     for chroot, drop, stype in shard:
+        if not deploy.supported({"chroot": chroot, "drop": drop}):
+            part.count("deploy_mode_not_possible_here")
+            continue
         srv = deploy.Server({"f.txt": b"inside\n", "d": {"g.txt": b"g\n"}}, {"chroot": chroot, "drop": drop, "servertype": stype, "tls": True}, handlers="default", tag="c19r")
         bad = []
         try:
